@@ -237,7 +237,8 @@ def process_lifetime_objects_rule(ctx, rep, cl, functions):
     (hashable) arguments alone - a method, or a function that touches the file system / clock / randomness / module state."""
     p, G = ctx.p, ctx.G
     n = 0
-    names = {f.qualname for f in functions} | set(ctx.helpers)
+    names = {f.qualname for f in functions}
+    names |= set(ctx.helpers) & set(G.reachable(sorted(names)))  # helpers analysed inlined into these functions
     scanned = 0
     for f in p.all_functions():
         if f.qualname not in names:
